@@ -314,6 +314,9 @@ class RepoInterp:
             if m_m is not None and not isinstance(getattr(node, "ctx", None), ast.Store) and getattr(self, "class_methods_as_values", True) \
                     and ("staticmethod" in m_m.decorators()):
                 return S("func:" + m_m.fq)  # Class.static_method as a value (an alias kept in a local)
+            if m_m is not None and not isinstance(getattr(node, "ctx", None), ast.Store) and not getattr(node, "_mtsa_is_callee", False) \
+                    and not m_m.decorators() and cn_m.split(".")[-1].startswith("_") and self.heap:
+                return S("func:" + m_m.fq)  # _Private.method as a plain function value (a row of a dispatch table): called with an explicit receiver
             return S(obj.name[len("class:"):] + "." + attr)
         return None
 
@@ -877,6 +880,12 @@ class RepoInterp:
                         st.env.pop(n_, None)
                     else:
                         st.env[n_] = v_
+        if fname in ("dataclasses.replace", "replace") and len(args) == 1 and isinstance(args[0], Ref) and args[0].kind == "obj" \
+                and (fname != "replace" or self.cur_fi.module.imports.get("replace") == "dataclasses.replace"):
+            # dataclasses.replace(obj, **changes): a new instance of the same class with the fields of obj, some replaced
+            src_dc = dict(st.deref(args[0]))
+            src_dc.update(kwargs)
+            return st.alloc("obj", src_dc)
         if fname in ("itertools.groupby", "groupby") and len(args) in (1, 2) and set(kwargs) <= {"key"} and (fname != "groupby" or self.cur_fi.module.imports.get("groupby") == "itertools.groupby"):
             # runs of ADJACENT elements with equal keys (CPython: a new group starts whenever the key changes - the input is not sorted)
             seq_g = it.iterate(args[0], st)
